@@ -3,8 +3,8 @@ package checks
 import (
 	"context"
 	"fmt"
-	"sort"
 	"regexp"
+	"sort"
 	"strings"
 	"testing"
 
